@@ -7,8 +7,12 @@
     the go/types view of each wrapped package in $GOROOT/src and the release lists of $GOROOT/api.
     The theorems about them are finite and proved by computation (one shard per file,
     Bind/Shard*.v); the bound "the rows of these files at this commit" is [In g all_groups].
-    (The tables of the other 47 platforms are decided by the same functions, evaluated by coqc in
-    the cases files of the thorough tier.)  The other theorems are unbounded. *)
+    The tables of the other platforms for the release the installed toolchain compiles
+    ([xplat_groups]: stdlib/syscall/go1_N_syscall_<os>_<arch>.go and their stdlib/unrestricted
+    counterparts, 47 platform pairs, each with the go/types truth of its own GOOS/GOARCH) are
+    regenerated and decided on every run as well (Bind/ShardX*.v, [C14_xplat_*] below).  (The
+    tables of the other release are decided by the same functions, evaluated by coqc in the cases
+    files of the thorough tier.)  The other theorems are unbounded. *)
 From Verif Require Import Lib.Str Bind.Literal Bind.Model Bind.Proofs Bind.Tables.
 Open Scope Z_scope.
 
@@ -16,7 +20,7 @@ Open Scope Z_scope.
     every row denotes its object exactly, nothing the release declares is missing, every wrapper
     forwards. *)
 Definition C14_statement : Prop :=
-  forall g, In g all_groups ->
+  forall g, In g (all_groups ++ xplat_groups) ->
     (forall f r, In f (g_files g) -> In r (f_rows f) -> row_ok const_g g f r = true)
     /\ complete g = true /\ forwards g = true.
 
@@ -67,8 +71,58 @@ Proof. exact tables_refuted. Qed.
 Print Assumptions C14_tables_refuted.
 
 Theorem C14_statement_refuted : ~ C14_statement.
-Proof. exact statement_refuted. Qed.
+Proof. exact statement_all_refuted. Qed.
 Print Assumptions C14_statement_refuted.
+
+(* ------------------------------------------------------------------ *)
+(** * The tables of the other platforms (cross-platform rows, quick set) *)
+
+(** Every row of every binding file of another platform is what the generator emits for the
+    identically named object of package syscall AS go/types SEES IT FOR THAT GOOS/GOARCH ... *)
+Theorem C14_xplat_rows_are_generated :
+  forall g f r, In g xplat_groups -> In f (g_files g) -> In r (f_rows f) -> row_ok const_y g f r = true.
+Proof. exact xplat_rows_generated. Qed.
+Print Assumptions C14_xplat_rows_are_generated.
+
+(** ... hence denotes it exactly (same value for that platform) outside the float region. *)
+Theorem C14_xplat_faithful_partial :
+  forall g f r, In g xplat_groups -> In f (g_files g) -> In r (f_rows f) ->
+                row_region g r = false -> row_ok const_g g f r = true.
+Proof. exact xplat_rows_exact_outside. Qed.
+Print Assumptions C14_xplat_faithful_partial.
+
+(** Non-vacuity, and platform dependence of the truth: some cross-platform table binds
+    O_LARGEFILE, the constant is NOT 0 there (it is 0 on the host), and the row denotes it exactly. *)
+Theorem C14_xplat_inhabited :
+  exists g f r z, In g xplat_groups /\ In f (g_files g) /\ In r (f_rows f)
+    /\ r_name r = s "O_LARGEFILE" /\ row_kind g r = Some (KUInt z) /\ z <> 0
+    /\ row_region g r = false /\ row_ok const_g g f r = true.
+Proof. exact xplat_inhabited. Qed.
+Print Assumptions C14_xplat_inhabited.
+
+(** Forwarding, full, for the wrappers of every platform. *)
+Theorem C14_xplat_forward_full : forall g, In g xplat_groups -> forwards g = true.
+Proof. exact xplat_forward. Qed.
+Print Assumptions C14_xplat_forward_full.
+
+(** Completeness, partial: up to the regenerated drift list (objects the installed, later, release
+    declares for a platform $GOROOT/api is silent about, absent from both releases of the table). *)
+Theorem C14_xplat_complete_partial : forall g, In g xplat_groups -> complete_upto xplat_drift g = true.
+Proof. exact xplat_complete_upto. Qed.
+Print Assumptions C14_xplat_complete_partial.
+
+(** What that means, for all tables and drift lists: an object without its rows is a listed drift
+    object without api record; with an empty list it is completeness itself. *)
+Theorem C14_complete_upto_means :
+  forall drift g, complete_upto drift g = true -> g_complete g = true ->
+  forall tp t, In tp (g_truth g) -> In t (tp_objs tp) ->
+  obj_complete g tp t = true \/ (t_api t = ANone /\ In (t_id t) drift).
+Proof. exact complete_upto_spec. Qed.
+Print Assumptions C14_complete_upto_means.
+
+Theorem C14_complete_upto_nil : forall g, complete_upto [] g = complete g.
+Proof. exact complete_upto_nil. Qed.
+Print Assumptions C14_complete_upto_nil.
 
 (* ------------------------------------------------------------------ *)
 (** * What the decision procedures decide (for all tables, not only today's) *)
